@@ -374,7 +374,10 @@ func TestCheck(t *testing.T) {
 	}
 	split("stubs", injA, casesA, false)
 	split("default", fingerproxy.DefaultHeaderInjectors(), casesB, true)
-	split("default+custom", append(fingerproxy.DefaultHeaderInjectors(), custom), casesC, true)
+	setC := append(fingerproxy.DefaultHeaderInjectors(), custom)
+	// a second, different set is built the same (documented) way afterwards; the first one must be unaffected by it
+	_ = append(fingerproxy.DefaultHeaderInjectors(), stub{"X-Other-Tenant-FP", 0})
+	split("default+custom", setC, casesC, true)
 	rep.Info["cases_total"] = len(casesA) + len(casesB) + len(casesC)
 	for pass := 0; pass < 2; pass++ {
 		prefill = pass == 1
